@@ -528,7 +528,7 @@ func init() {
 			// roots: one completed persistence round; the very first round still in flight
 			Roots: [][]string{{"B0", "M", "Pb", "Pe"}, {"B0", "M", "Pb"}},
 			MaxB:  3, MaxD: 9, MaxK: 1, MaxR: 1, Deadline: tierDeadline(tier),
-			Note: "order-sensitive operator existing+\":\"+operand (nil existing rendered ^); oracle: snapshot dump == model fold at every state; map backing: lower-level content is a prefix state"}
+			Note: "order-sensitive operator existing+\":\"+operand (nil existing rendered ^); oracle: snapshot dump == model fold at every state; map backing: lower-level content is a prefix state", Share: 0.47}
 		if tier == "thorough" {
 			sp.MaxB, sp.MaxD, sp.MaxK, sp.MaxR = 4, 12, 2, 1
 		}
@@ -553,7 +553,24 @@ func init() {
 		sp.Note += "; child variant: operands inside child collection A and next to it"
 		return sp
 	}
-	g1Groups["C08"] = []string{"C08", "C08child"}
+	// a narrow alphabet (one key: set it, add an operand) explored deeper, on lower levels that start without any
+	// snapshot: overlapping first rounds need eight steps from "first round in flight"
+	g1Specs["C08deep"] = func(tier string) *G1Spec {
+		sp := g1Specs["C08"](tier)
+		sp.Alpha = []*BatchSpec{{Ops: ops("S:a")}, {Ops: ops("M:a")}}
+		sp.Configs = []Config{
+			{Backing: "map", MinMergePct: 100, NoLLInit: true, MergeOp: true},
+			{Backing: "map", MinMergePct: 0.01, NoLLInit: true, CachePersisted: true, MergeOp: true},
+		}
+		sp.Steps = []string{"M", "Pb", "Pe"}
+		sp.Devs = []string{"m2"}
+		sp.Roots = [][]string{{"B0", "M", "Pb"}}
+		sp.MaxB, sp.MaxD, sp.MaxK, sp.MaxR = 4, 10, 1, 0
+		sp.Share = 0.06
+		sp.Note += "; deep variant: two-batch alphabet on one key, map lower level without LowerLevelInit, to depth 10"
+		return sp
+	}
+	g1Groups["C08"] = []string{"C08", "C08child", "C08deep"}
 	engines["C08"] = checkG1
 
 	// C10: all read paths agree
@@ -627,7 +644,7 @@ func init() {
 			// roots: one completed round; both keys persisted and a round with an unrelated... key in flight
 			Roots: [][]string{{"B0", "M", "Pb", "Pe"}, {"B4", "M", "Pb", "Pe", "B0", "M", "Pb"}},
 			MaxB:  3, MaxD: 9, MaxK: 1, Deadline: tierDeadline(tier),
-			Note: "map lower level applying each `higher` by the documented protocol; Pe/Pf = update succeeds / fails; oracles: lower level is a non-shrinking prefix state, overlay == model, failed update re-offered, drained => equal"}
+			Note: "map lower level applying each `higher` by the documented protocol; Pe/Pf = update succeeds / fails; oracles: lower level is a non-shrinking prefix state, overlay == model, failed update re-offered, drained => equal", Share: 0.88}
 		if tier == "thorough" {
 			sp.MaxB, sp.MaxD, sp.MaxK = 4, 12, 2
 		}
@@ -636,6 +653,23 @@ func init() {
 		}
 		return sp
 	}
+	g1Specs["C13deep"] = func(tier string) *G1Spec {
+		sp := g1Specs["C13"](tier)
+		sp.Alpha = []*BatchSpec{{Ops: ops("S:a")}, {Ops: ops("M:a")}, {Ops: ops("D:a")}}
+		sp.Configs = []Config{
+			{Backing: "map", MinMergePct: 100, MergeOp: true},
+			{Backing: "map", MinMergePct: 0.01, CachePersisted: true, MergeOp: true},
+			{Backing: "map", MinMergePct: 100, NoLLInit: true, CachePersisted: true, MergeOp: true},
+		}
+		sp.Steps = []string{"M", "Pb", "Pe", "Pf"}
+		sp.Devs = []string{"m2", "p2"}
+		sp.Roots = [][]string{{"B0", "M", "Pb"}}
+		sp.MaxB, sp.MaxD, sp.MaxK = 4, 9, 1
+		sp.Share = 0.12
+		sp.Note += "; deep variant: three-batch alphabet on one key (set, operand, delete), to depth 9"
+		return sp
+	}
+	g1Groups["C13"] = []string{"C13", "C13deep"}
 	engines["C13"] = checkG1
 
 	// C20: zero gauges => everything is in the lower level
